@@ -1199,7 +1199,21 @@ int main(int argc, char **argv) {
     atexit(paths_fini);
     vp_alloc_install();
     signal(SIGALRM, on_alarm);
-    measure_order();
+    {   /* the probe runs in a helper process: this one (and the replay processes forked from it) has not used the library yet when
+           the first program begins (cold starts, gw_cold) */
+        int pp[2];
+        if (pipe(pp)) return 2;
+        fflush(stdout);
+        pid_t hp = fork();
+        if (hp == 0) { measure_order(); ssize_t w = write(pp[1], RN, sizeof RN); _exit(w == (ssize_t)sizeof RN ? 0 : 2); }
+        close(pp[1]);
+        size_t got = 0; ssize_t r;
+        while (got < sizeof RN && (r = read(pp[0], (char *)RN + got, sizeof RN - got)) > 0) got += (size_t)r;
+        close(pp[0]);
+        int st = 0; waitpid(hp, &st, 0);
+        if (got != sizeof RN || !WIFEXITED(st) || WEXITSTATUS(st)) { fprintf(stderr, "drv_core: order probe failed\n"); return 2; }
+    }
+    gw_cold_enabled = 1;
     gw_need_terminal = 1;
     gw_target_fn = is_clean;
     gw_final_hook = final_lsan;
